@@ -1,3 +1,4 @@
+import TantivyModel.Proofs.SSTable.WriterFull
 import TantivyModel.Proofs.SSTable.SearchLim
 import TantivyModel.Proofs.SSTable.BestSlope
 import TantivyModel.Proofs.SSTable.Separators
@@ -1067,6 +1068,29 @@ theorem C15_duplicate_empty_key_counterexample :
     writerAccepts 1 [[], [], [1]] = true ∧
     -- with one key per block the block-boundary assert does catch it
     writerAccepts 0 [[], []] = false := by decide
+
+/-! ## round 2: the exact set of accepted insertion sequences -/
+
+/-- FULL form of the insertion-order statement (replaces the hypothesis of
+`C15_insert_order_partial` by the exact exception): for every block length, the writer accepts a
+sequence iff every key is strictly above its predecessor — except that the `(i+1)`-th key may repeat
+an EMPTY `i`-th key as long as `i + 1 ≤ blockLen`, i.e. while the run of empty keys (one byte each)
+has not yet closed the block; once it has, the block-boundary assert rejects the next empty key.
+Nothing else is ever accepted: the known finding C15:duplicate-empty-key-accepted is the whole
+deviation from "accepted ⇔ strictly increasing". -/
+theorem C15_insert_order (blockLen : Nat) (ks : List Key) :
+    writerAccepts blockLen ks = true ↔ AdjOK blockLen 0 ks := by
+  rw [← adjFrom_none_iff, ← accepted_iff_adjFrom blockLen {} none 0 ks 0 (WInv2_init blockLen)]
+  simp [writerAccepts]
+
+/-- in particular a sequence without two leading empty keys is accepted iff strictly increasing -/
+theorem C15_insert_order_no_empty_dup (blockLen : Nat) (ks : List Key) (h : NoEmptyDup none ks) :
+    writerAccepts blockLen ks = true ↔ StrictInc ks :=
+  ⟨fun ha => (C15_insert_order_partial blockLen ks).1 ha h, (C15_insert_order_partial blockLen ks).2⟩
+
+example : AdjOK 1 0 [[], [], [1]] ∧ ¬ AdjOK 1 0 [[], [], []] ∧ ¬ AdjOK 4000 0 [[1], [1]] := by
+  simp [AdjOK, lexLt]
+example : writerAccepts 1 [[], [], []] = false ∧ writerAccepts 2 [[], [], [], [5]] = true := by decide
 
 /-! ## non-vacuity -/
 
